@@ -98,7 +98,7 @@ func (a *HMACAuth) Verify(r *http.Request, requestPath string, body []byte) erro
 	} else {
 		a.nonce.setNow(now)
 	}
-	if !a.nonce.seenOnce(nonce, t.Add(a.Tolerance)) {
+	if !a.nonce.seenOnce(nonce, t, a.Tolerance) {
 		return ErrUnauthorized
 	}
 
@@ -150,7 +150,16 @@ func cloneByteSlices(in [][]byte) [][]byte {
 type nonceCache struct {
 	mu  sync.Mutex
 	now func() time.Time
-	m   map[string]time.Time
+	// m maps a nonce to the signed timestamp it was honoured with.
+	m map[string]time.Time
+	// tolerance is the largest tolerance the cache has been used with; entries
+	// stay live through timestamp+tolerance. A cache outlives the authenticator
+	// it was created for (InheritReplayState), so the tolerance can change.
+	tolerance time.Duration
+	// notBefore is set when the tolerance grows: timestamps older than the
+	// window that was in force until then may already have been forgotten, so
+	// they cannot be told apart from replays and are refused.
+	notBefore time.Time
 }
 
 func newNonceCache(now func() time.Time) *nonceCache {
@@ -172,7 +181,7 @@ func (c *nonceCache) setNow(now func() time.Time) {
 	c.mu.Unlock()
 }
 
-func (c *nonceCache) seenOnce(nonce string, expiresAt time.Time) bool {
+func (c *nonceCache) seenOnce(nonce string, signedAt time.Time, tolerance time.Duration) bool {
 	if nonce == "" {
 		return false
 	}
@@ -180,19 +189,33 @@ func (c *nonceCache) seenOnce(nonce string, expiresAt time.Time) bool {
 	c.mu.Lock()
 	defer c.mu.Unlock()
 
+	now := c.now().UTC()
+	if tolerance > c.tolerance {
+		if len(c.m) > 0 || c.tolerance > 0 {
+			// A reload raised the tolerance. Whatever was honoured with a
+			// timestamp before now-oldTolerance may have been cleaned up.
+			if floor := now.Add(-c.tolerance); floor.After(c.notBefore) {
+				c.notBefore = floor
+			}
+		}
+		c.tolerance = tolerance
+	}
+	if signedAt.Before(c.notBefore) {
+		return false
+	}
+
 	// Opportunistic cleanup. An entry stays live through its expiry instant:
 	// at now == timestamp+tolerance the timestamp check above still passes, so
 	// the nonce must still be remembered.
-	now := c.now().UTC()
-	for k, exp := range c.m {
-		if now.After(exp) {
+	for k, ts := range c.m {
+		if now.After(ts.Add(c.tolerance)) {
 			delete(c.m, k)
 		}
 	}
 
-	if exp, ok := c.m[nonce]; ok && !now.After(exp) {
+	if ts, ok := c.m[nonce]; ok && !now.After(ts.Add(c.tolerance)) {
 		return false
 	}
-	c.m[nonce] = expiresAt.UTC()
+	c.m[nonce] = signedAt.UTC()
 	return true
 }
